@@ -26,9 +26,7 @@ def build_item(rnd, depth):
     v = c01.scalar_value(kind, -1, rnd, n=n)
     if isinstance(v, bytearray):
         v = bytes(v)
-    if name in c01.NUM_RANGE:
-        # bools held by integer items print as 'True'; they are outside the item domain of C14/C15
-        v = [int(x) for x in v] if isinstance(v, list) else int(v) if isinstance(v, bool) else v
+    # (bools held by integer items are written as the numbers they stand for since D54)
     try:
         return c14.CLS[name](v)
     except Exception:  # noqa: BLE001
@@ -116,6 +114,10 @@ def gen_cases(rnd, tier):
             elif c < 0.5 and isinstance(item, ItemL):
                 i = sml.rfind(">")
                 lits.append(("dot_close", case_text(sml[:i] + ". " + sml[i + 1 :], 3)))
+            elif c < 0.7:
+                # a complete item, and behind it: an item that is not closed / an unknown type / a literal left open / loose tokens
+                tail = rnd.choice(["<", "< U2 1", "< FOO 1 >", "< L < XYZ > >", '"never closed < A', "'x", "abc", "5", "< U1 5 > <", "[", "]", ">"])
+                lits.append(("trailing", case_text(sml + rnd.choice([" ", "\n", ""]) + tail, 4)))
         except valrig.Unobservable:
             pass
     # strings over every code point of both text classes
@@ -123,9 +125,16 @@ def gen_cases(rnd, tier):
     for it in (c14.CLS["A"](allb), c14.CLS["J"](allb), c14.CLS["A"]('say "hi" \\ \'x\''), c14.CLS["A"]('"'), c14.CLS["A"]('""x""'), c14.CLS["B"](allb),
                # a backslash where a run ends (end of the text, in front of a quote, in front of a control character), doubled, alone
                c14.CLS["A"]("\\"), c14.CLS["A"]("C:\\data\\"), c14.CLS["A"]('a\\"b'), c14.CLS["A"]("a\\\nb\\\\"), c14.CLS["A"]("\\\\"), c14.CLS["A"]("'\\'"),
+               c14.CLS["U1"](True), c14.CLS["U1"]([1, True, 0]), c14.CLS["I2"](False), c14.CLS["U8"]([True, True]),
                c14.CLS["A"]("ends with blank "), c14.CLS["A"](" "), c14.CLS["A"]("a>"), c14.CLS["A"]("<"), c14.CLS["A"]("#x"), c14.CLS["A"]("tab\there")):
         try:
             lits.append(("item", case_item(it)[0]))
+        except valrig.Unobservable:
+            pass
+    # type names are ASCII: letters that str.upper() maps onto one (dotless i, long s) do not make a known type
+    for txt in ("< \u01311 5 >", "< \u0131 8 >", "< u\u017f 1 >", "< \u212a >"):
+        try:
+            lits.append(("unknown_type", case_text(txt, 2)))
         except valrig.Unobservable:
             pass
     # every token sequence of length <= 2 (quick: every third) / <= 3 (thorough): termination, rejection, agreement with the model
